@@ -27,7 +27,7 @@ EXHAUSTIVE = {"quick": ["7 distances x 4 engines x radii {inf, on, below, above}
 REQUIRE = {"custom_self_cases": 60, "custom_cross_cases": 20, "radius_finite": 40, "radius_inf": 20,
            "pairs_lev_ok_custom_too_far": 20, "pairs_custom_ok_lev_too_far": 20, "tcrdist_cases": 20,
            "tcrdist_empty_results": 3, "tcrdist_no_candidates": 2, "tcrdist_chain_both": 5, "stub_calls_checked": 10,
-           "vtable_cells_checked": 10000}
+           "vtable_cells_checked": 10000, "custom_history_cases": 8, "lookups_after_distance_change": 15}
 SHARDS = {"quick": 6, "thorough": 16}
 
 
@@ -117,6 +117,42 @@ def k_custom_cross(ctx, refs, queries, k, dist, maxcd):
         if ldb.ok:
             out = ctx.call(ldb.value.lookup, list(queries), max_edits=k, custom_distance=f, max_custom_distance=mc)
             S.expect_triplets(ctx, out, exp, "LookupDB.lookup", f"custom-cross-radius-{rad}")
+
+
+def k_custom_history(ctx, refs, k, steps):
+    """one SymdelDB / LookupDB build, then lookups whose custom distance (or none) changes from step to step"""
+    import pyrepseq.nn as nn
+    db = ctx.call(nn.SymdelDB, list(refs), k)
+    ldb = ctx.call(nn.LookupDB, list(refs))
+    if not db.ok or not ldb.ok:
+        ctx.violation("DB:build:raised", "database construction raised", [db.describe(), ldb.describe()], None)
+        return
+    ctx.count("custom_history_cases")
+    ctx.nontriv(["CH", refs, k, steps])
+    ctx.sample("custom_history", {"refs": refs[:8], "k": k, "steps": steps[:4]})
+    prev = None
+    for st in steps:
+        q, dist, mc = st["q"], st.get("dist"), _maxcd(st.get("maxcd"))
+        if dist is None:
+            exp = O.neigh_cross(q, refs, k)
+            out = ctx.call(db.value.lookup, list(q))
+            tag = "default"
+        else:
+            f = D.DISTS[dist]
+            exp = _exp_cross(q, refs, k, f, mc)
+            out = ctx.call(db.value.lookup, list(q), custom_distance=f, max_custom_distance=mc)
+            tag = "custom"
+        if prev is not None and prev != dist:
+            ctx.count("lookups_after_distance_change")
+        S.expect_triplets(ctx, out, exp, "SymdelDB.lookup", f"cross-history-{tag}-after-{'other' if prev != dist else 'same'}-distance",
+                          extra={"dist": dist, "previous": prev})
+        if k <= 2 and all(len(x) <= 6 for x in q):
+            if dist is None:
+                out = ctx.call(ldb.value.lookup, list(q), max_edits=k)
+            else:
+                out = ctx.call(ldb.value.lookup, list(q), max_edits=k, custom_distance=D.DISTS[dist], max_custom_distance=mc)
+            S.expect_triplets(ctx, out, exp, "LookupDB.lookup", f"cross-history-{tag}")
+        prev = dist
 
 
 def _vtable(chain):
@@ -236,7 +272,7 @@ def k_vtables(ctx):
             ctx.violation(f"vdists_{chain}:duplicate-labels", "duplicate allele labels", None, None)
 
 
-KINDS = {"custom_self": k_custom_self, "custom_cross": k_custom_cross, "tcrdist": k_tcrdist, "vtables": k_vtables}
+KINDS = {"custom_self": k_custom_self, "custom_cross": k_custom_cross, "custom_history": k_custom_history, "tcrdist": k_tcrdist, "vtables": k_vtables}
 ENG = ["nearest_neighbor", "symdel", "hash_based", "kdtree"]
 WIT = ["CAAA", "CADA", "CAAAD", "CAAA", "CDDD", "CAAK", "CAA", "CDDA", "CADAA", "CWWW", "CA"]
 
@@ -306,6 +342,17 @@ def generate(tier, seed):
         radii = (["inf"] if dist != "whamming" else []) + _radii(dist, seqs[:25])
         yield "custom_self", {"seqs": seqs, "k": k, "dist": dist, "maxcd": rng.choice(radii),
                               "engines": ENG if k == 1 else ["nearest_neighbor", "symdel", "kdtree"]}, i < 4
+    # one database object, distance function changing between lookups
+    for i in range(300 if thorough else 24):
+        pool = pools[i % len(pools)]
+        refs = G.small_multiset(rng, pool, 3, 25)
+        qs = G.small_multiset(rng, pool, 2, 8)
+        steps = []
+        for j in range(rng.randint(3, 7)):
+            dist = rng.choice([None, "lev2", "halflev", "lendiff", "levplus", "compl1"])
+            q = qs if rng.random() < 0.7 else G.small_multiset(rng, pool, 1, 8)
+            steps.append({"q": q, "dist": dist, "maxcd": rng.choice(["inf", 1.0, 2.0, 0.5]) if dist else None})
+        yield "custom_history", {"refs": refs, "k": rng.choice([1, 2]), "steps": steps}, i < 10
     # TCRdist
     al_a = list(_vtable("alpha").index)
     al_b = list(_vtable("beta").index)
